@@ -363,7 +363,7 @@ class ExprMixin:
                 return 'sizeof(%s)' % self.lv(e['inner'][0], cx)
             self.err(e, 'type trait expr')
         if k == 'SizeOfPackExpr':
-            self.err(e, 'sizeof... outside ConstantExpr')
+            return '((unsigned long)%dUL)' % self.pack_size(e)
         if k in ('CXXScalarValueInitExpr', 'ImplicitValueInitExpr'):
             ti = self.einfo(e)
             if ti['kind'] == 'rec' and not ti['suf']:
@@ -449,6 +449,33 @@ class ExprMixin:
         if op == '__extension__':
             return self.rv(sub, cx)
         self.err(e, 'unary %s' % op)
+
+    def pack_size(self, e):
+        name = e.get('name')
+        n = e
+        seen = set()
+        while n is not None and id(n) not in seen:
+            seen.add(id(n))
+            targs = [c for c in n.get('inner', []) if c.get('kind') == 'TemplateArgument']
+            if targs and n.get('kind') in ('ClassTemplateSpecializationDecl',) + tuple(FUNC_KINDS):
+                tmpl = self.ast.parent.get(n.get('id'))
+                params = []
+                if tmpl is not None and tmpl.get('kind') in ('ClassTemplateDecl', 'FunctionTemplateDecl'):
+                    params = [c for c in tmpl.get('inner', []) if c.get('kind') in
+                              ('TemplateTypeParmDecl', 'NonTypeTemplateParmDecl', 'TemplateTemplateParmDecl')]
+                names = [p.get('name') for p in params]
+                if name in names and len(params) == len(targs):
+                    ta = targs[names.index(name)]
+                    if ta.get('isPack'):
+                        return len(ta.get('inner', []))
+                elif name not in names:
+                    pass
+                else:
+                    packs = [t for t in targs if t.get('isPack')]
+                    if len(packs) == 1:
+                        return len(packs[0].get('inner', []))
+            n = self.ast.parent.get(n.get('id'))
+        self.err(e, 'cannot determine sizeof...(%s)' % name)
 
     def sub_with_pre(self, e, cx, fn=None):
         """lower e capturing its pre-statements separately"""
